@@ -77,6 +77,17 @@ def exact_value(item, units):
 
 
 def run(ctx):
+    # sizes: membership in long arrays and ranges, comparisons of lazy values with hundreds of factors and a negative factor
+    _its = [(["5 in 1..2000"], "I:1", "membership in a range of 2000"), (["0 in 1..2000"], "I:0", "membership in a range of 2000"),
+            (["{5 in 1..2000, 0 in 1..2000, 2000 in 1..2000}"], "A:[I:1;I:0;I:1]", "membership in a range of 2000, in an array"),
+            (["a = {x*x : x in 1..1500}", "{49 in a, 50 in a}"], "A:[I:1;I:0]", "membership in a stored array of 1500"),
+            (["(3 m) in {x m : x in 1..1200}"], "I:1", "membership of a quantity in 1200 quantities"), (["(1/2) in {x/2 : x in 1..1100}"], "I:1", "membership of a fraction in 1100 elements"),
+            (["2.5 in 1..3000"], "I:0", "a non-member float"), (["x = 700!; y = x*-1; {x < y, x == y, x > y, x <= y, x >= y, x != y}"], "A:[I:0;I:0;I:1;I:0;I:1;I:1]", "a lazy value against its negative"),
+            (["{1000! < -2*1000!, 1000! == -2*1000!, 1000! > -2*1000!}"], "A:[I:0;I:0;I:1]", "1000! against -2*1000!"),
+            (["{1000!/-3 < 1000!, 1000!*-3 <= 1000!, 1000! >= 1000!*-3, 1000!*-3 == 1000!*-3}"], "A:[I:1;I:1;I:1;I:1]", "negative multiples of 1000!"),
+            (["{600! < 601!, 601! < 600!, 600!*601 == 601!, C(1000, 500) > C(1000, 499), C(1000,3)*-1 < C(1000,2)*-1}"], "A:[I:1;I:0;I:1;I:1;I:1]", "large lazy values compared"),
+            (["{x < 3 : x in 1..1200}"], "A:[%s]" % ";".join("I:%d" % (1 if x < 3 else 0) for x in range(1, 1201)), "1200 comparisons in one comprehension")]
+    C.expect_sessions(ctx["report"], ctx["rundir"], "C09", _its, kind="size")
     C.seam_check(ctx["report"], ctx["rundir"], "C09", wrappers=[],
                  pairs=[("5! * -1 * -1 == 5!", "1"), ("(-1*3!)*(-1*4!) == 3!*4!", "1"), ("C(6,2) in {-1*C(6,4)*-1}", "1"), ("(5! * -1 * -1 < 5!) + (5! * -1 * -1 > 5!)", "0"),
                         ("10!/7! == 6!", "1"), ("C(10,3) == C(10,7)", "1"), ("5! * -1 == -(5!)", "1"), ("5!/(-1) < 0", "1")])
